@@ -4,6 +4,7 @@
 // stdout, one line per case: space-separated records  M:i:off:byte:line:col:at:bol:eol:lb:ll
 //   M = B  position() after in.bump( i )            (odd i: i single in.bump() calls)
 //       Y  position() after parse< bytes< i > >( in ), i <= 12
+//       R  like T, but the walk runs inside rematch< until< eof >, … > (on the inner input that rematch constructs)
 //       T  position of the i-th `mark` in seq< mark, star< sor< eol, any >, mark > >, taken by an
 //          action *during* the parsing run; the helpers are called from inside the action
 //   off = current() - begin() when the position was taken, byte:line:col = the position,
@@ -120,7 +121,12 @@ struct WalkState
    const Cfg* cfg;
    std::string* out;
    std::size_t n = 0;
+   char mode = 'T';
 };
+
+// the same walk over the inner input of rematch<> (the head matches the whole input, the walk re-parses it): positions obtained
+// inside a rematch refer to the same bytes of the outer input
+struct rewalk : pegtl::rematch< pegtl::until< pegtl::eof >, walk > {};
 
 template< typename Rule >
 struct walk_action : pegtl::nothing< Rule > {};
@@ -131,7 +137,7 @@ struct walk_action< mark >
    template< typename ActionInput, typename In >
    static void apply( const ActionInput& ai, WalkState< In >& s )
    {
-      record( *s.out, *s.in, *s.cfg, 'T', s.n, off_of( ai.begin(), s.cfg->data ), ai.position() );
+      record( *s.out, *s.in, *s.cfg, s.mode, s.n, off_of( ai.begin(), s.cfg->data ), ai.position() );
       ++s.n;
    }
 };
@@ -159,6 +165,15 @@ static std::string run_case( const Cfg& c )
       const bool ok = pegtl::parse< walk, walk_action >( *in, s );
       if( !ok ) {
          out += " T-FAILED";
+      }
+   }
+   {
+      auto in = make< TM, Eol >( c );
+      WalkState< typename Input< TM, Eol >::type > s{ in.get(), &c, &out };
+      s.mode = 'R';
+      const bool ok = pegtl::parse< rewalk, walk_action >( *in, s );
+      if( !ok ) {
+         out += " R-FAILED";
       }
    }
    return out;
